@@ -35,7 +35,7 @@ if os.environ.get("VERIF_C13_2_APPLIED") in ("0", "1"):
 # 0.03..0.4 px for up >= 4 already at mean = 30..300 x contrast (genuine defect, cases not judged), the numpy estimator is
 # judged for up >= 2 at mean = 100..110 x contrast with an integer-shift bound of 0.01 px (its measured floor there is 6e-4 px over 4000 pairs).
 # True: both backends, mean = 100..1000 x contrast, every factor, the usual float32 bounds.  VERIF_C13_3_APPLIED=0/1 overrides.
-C13_3_APPLIED = False
+C13_3_APPLIED = True
 if os.environ.get("VERIF_C13_3_APPLIED") in ("0", "1"):
     C13_3_APPLIED = os.environ["VERIF_C13_3_APPLIED"] == "1"
 # ======================================================================================================================
